@@ -290,6 +290,9 @@ Definition mv_sources (c : cfg) (o : opd) (f : fsop) : bool :=
   match f with
   | Rename a d => existsb (fun s => under s a) (o_srcs o) && below (S_o c o) d
   | Rmdir p => existsb (fun s => under s p) (o_srcs o)
+  | Unlink p => existsb (fun s => under s p) (o_srcs o)   (* a named source that is a symbolic link: its content is
+                                                            copied into the staged version (a Create of the body) and the
+                                                            link itself removed (repo.rs move_file) *)
   | _ => false
   end.
 
@@ -510,6 +513,7 @@ Definition gen (c : cfg) (o : opd) (g : gin) : list (bool * fsop) :=
   | _ =>
       g_infra c ++ g_acquire c o ++ g_stage_object c o g ++ g_body c o g ++ g_inventory c o g
       ++ g_release c o ++ map (fun p => may (Rmdir p)) (g_srcdirs g)
+      ++ map (fun p => may (Unlink p)) (match o_kind o with KMvExt => o_srcs o | _ => [] end)
   end.
 
 (** input conditions of [gen] (what the callers of the modelled functions guarantee) *)
